@@ -50,8 +50,11 @@ Record inv_gen (P : nat -> sample -> Prop) (s : state) : Prop := {
       dict_eqb Nat.eqb (xof t1) (xof t2) = true -> peq (gof t1) (gof t2);
   ig_I3 : forall i t, (i < nfun s)%nat -> f_leaf (getf s i) = false -> In t (f_pts (getf s i)) ->
       P i t \/ I3_at s (f_w (getf s i)) t;
-  ig_I6 : forall i, (i < nfun s)%nat -> f_leaf (getf s i) = false ->
-      f_reuse (getf s i) = forallb (fun '(k, _) => f_reuse (getf s k)) (f_w (getf s i))
+  (* a sum declared differentiable only has differentiable terms (the converse may fail: the flag is the
+     conjunction over ALL operands of the construction, also those whose weights cancelled -- a sum is
+     allowed to be declared non-differentiable) *)
+  ig_I6 : forall i, (i < nfun s)%nat -> f_leaf (getf s i) = false -> f_reuse (getf s i) = true ->
+      forallb (fun '(k, _) => f_reuse (getf s k)) (f_w (getf s i)) = true
 }.
 
 Definition noP : nat -> sample -> Prop := fun _ _ => False.
@@ -231,7 +234,7 @@ Proof.
       destruct (HI3 Hl) as [Hp|[ch [Hc Hs]]]; [left; exact Hp|].
       right. exists ch. split; [|exact Hs]. eapply covers_mono; [|exact Hc]. exact Hmono.
     + rewrite getf_record_neq in Ht by exact Hne. apply Hold, Ht.
-  - intros j Hj. destruct (Hfl j) as (-> & -> & ->). intros Hl. rewrite (H8 j Hj Hl).
+  - intros j Hj. destruct (Hfl j) as (-> & -> & ->). intros Hl Hr. rewrite <- (H8 j Hj Hl Hr).
     generalize (f_w (getf s j)). intros W. induction W as [|[k q] W IH]; cbn [forallb]; [reflexivity|].
     destruct (Hfl k) as (_ & -> & _). rewrite IH. reflexivity.
 Qed.
